@@ -160,12 +160,26 @@ fn full<D: GD>() -> Extents<SimpleNumber> {
 
 /// Read a value back through the trait getters only.
 pub fn get<D: GD>(d: &D, addr: usize) -> V {
+    NODES.with(|n| n.set(0));
     get_depth(d, addr, 0)
+}
+
+thread_local! {
+    /// nodes read by the current `get`: a value whose sub-values are shared many times over (a loop that doubles its
+    /// value on every pass) is a small graph and an astronomically large tree; reading stops after 20 000 nodes
+    static NODES: std::cell::Cell<usize> = std::cell::Cell::new(0);
 }
 
 pub fn get_depth<D: GD>(d: &D, addr: usize, depth: usize) -> V {
     if depth > 64 {
         return V::Opaque("depth".into());
+    }
+    let seen = NODES.with(|n| {
+        n.set(n.get() + 1);
+        n.get()
+    });
+    if seen > 20_000 {
+        return V::Opaque("size".into());
     }
     macro_rules! tr {
         ($e:expr) => {
